@@ -363,7 +363,11 @@ def run_numpy(case, ctx):
     policy = case['policy']
     lens = [len(a) for a in arrs]
     n = {'ij': min(lens), 'oj': max(lens), 'lj': lens[0], 'rj': lens[-1]}[policy]
-    st, res = ctx.call(df_reindex, cont, policy) if case['api'] == 'df_reindex' else ctx.call(df_sync, cont, policy)
+    meth = case.get('method')
+    if meth:
+        st, res = ctx.call(df_reindex, cont, policy, method=meth) if case['api'] == 'df_reindex' else ctx.call(df_sync, cont, policy, method=meth)
+    else:
+        st, res = ctx.call(df_reindex, cont, policy) if case['api'] == 'df_reindex' else ctx.call(df_sync, cont, policy)
     ctx.monitors['numpy_end_aligned'] += 1
     if st != 'ok':
         ctx.fail('numpy_end_aligned', 'aligning arrays of lengths %s with %s raised %s' % (lens, policy, core.exc_str(res)))
@@ -378,6 +382,11 @@ def run_numpy(case, ctx):
         else:
             pad = np.full((n - len(a),) + a.shape[1:], np.nan)
             exp = np.concatenate([pad, a])
+        if meth and len(exp):
+            # the fill acts on the aligned array: a padded row takes the next observation under bfill and stays NaN under ffill; nothing that was cut away is seen
+            import pandas as pd
+            e2 = pd.DataFrame(np.asarray(exp, dtype=float).reshape(len(exp), -1))
+            exp = (e2.ffill() if meth == 'ffill' else e2.bfill()).values.reshape(np.asarray(exp).shape)
         okk = isinstance(o, np.ndarray) and o.shape == exp.shape and all((isn(p) and isn(q)) or p == q for p, q in zip(o.reshape(-1).tolist(), exp.reshape(-1).tolist()))
         if not okk:
             ctx.fail('numpy_end_aligned', 'array of length %d aligned to %d (%s): got %r expected %r' % (len(a), n, policy, o, exp))
@@ -474,6 +483,13 @@ def gen_case(rng):
         case = {'kind': 'numpy', 'arrays': arrays, 'policy': rng.choice(['ij', 'oj', 'lj', 'rj']), 'cont': rng.choice(['list', 'dict']), 'api': rng.choice(['df_reindex', 'df_sync'])}
         if rng.random() < 0.4:
             case['dtypes'] = [rng.choice(['float', 'int64', 'int32', 'bool']) for _ in arrays]
+        elif rng.random() < 0.5:
+            case['method'] = rng.choice(['ffill', 'bfill'])
+            for a_ in arrays:     # some missing observations inside the arrays
+                if isinstance(a_, list):
+                    for i_ in range(len(a_)):
+                        if rng.random() < 0.3:
+                            a_[i_] = float('nan')
         return case
     if r < 0.3:
         nargs = rng.randint(1, 3)
